@@ -6,6 +6,7 @@ ASSUME = [
     '(a) lagging node = fresh instance that applied a prefix of the history (by replay, and restored from a snapshot of that prefix); ids queried: every id of the history +-1, 0, 2^63',
     "(a) 'not yet seen' for an id that is dead and not newer than the applied position is accepted (conservative answer); 'no such session' must imply dead-forever and id <= newest applied id",
     '(a, API tier) a node that is not the leader (two-server configuration whose other member does not exist) gets every prefix of two logs (create/delete/QUIT, index gaps) applied to its FSM and is asked through the real GET messages / POST message / DELETE handlers about every session of the whole log with the correct secret and about ids beyond the applied position: never 404 or 200 for a session not yet seen, never 404 for a live one, never 200 for an ended one',
+    '(a, leader tier) a single-node leader: 11 quit messages (client-chosen, among them the words of the expiry sweep) x 5 previous activities; a DELETE answered 200 must end the session for the state machine and for the POST / GET handlers',
     '(b, network tier) the sweep itself is a loop in main(): three real robustirc binaries (internal/localnet) with SessionExpiration 3 s; an idle session must be expired by the first leader and, after that leader was killed once every node had passed a sweep interval, by the new leader too (bound 75 s each for what takes about 13 s; a wait for the network itself that runs out is inconclusive)',
     '(b) wall clock pinned by the rt engine (time.Now overlaid); services links (Reply==0) are client sessions of the API and expire like them',
     '(c) monitor on the mc exploration, bounds as C06',
@@ -40,6 +41,9 @@ def run(tier):
     # API tier: what the real public handlers of a lagging, non-leader node answer
     import apidrive
     rc = vlib.run_workers(apidrive.build(), 'TestVerifC17Api', vlib.NCPU, env={'GOMAXPROCS': '2'})
+    # leader tier: DELETE through the real handler, quit messages x previous activity
+    rl = vlib.run_workers(apidrive.build(), 'TestVerifC17Leader', 1, env={'GOMAXPROCS': '2'})
+    rc = rc + rl
     herr = [r['harness_error'] for r in rc if r.get('harness_error')]
     if herr:
         print('HARNESS-ERROR: ' + herr[0])
@@ -65,7 +69,8 @@ def run(tier):
         for k, c in (r.get('end_states') or {}).items(): answers[k] = answers.get(k, 0) + c
     extra = {
         'c17net': {'networks': sum(r.get('sequences', 0) for r in rnet), 'leader_changes': sum(r.get('leader_changes', 0) for r in rnet), 'outcomes': {k: v for r in rnet for k, v in (r.get('end_states') or {}).items()}, 'inconclusive': net_inconclusive},
-        'c17api': {'lagging_nodes': sum(r.get('sequences', 0) for r in rc), 'requests': sum(r.get('ops', 0) for r in rc), 'answers': answers},
+        'c17leader': {'deletes': sum(r.get('sequences', 0) for r in rl), 'outcomes': {k: v for r in rl for k, v in (r.get('end_states') or {}).items()}},
+        'c17api': {'lagging_nodes': sum(r.get('sequences', 0) for r in rc) - sum(r.get('sequences', 0) for r in rl), 'requests': sum(r.get('ops', 0) for r in rc), 'answers': answers},
         'c17a': {'histories': sum(r['histories'] for r in ra), 'prefixes': sum(r['prefixes'] for r in ra), 'queries': sum(r['queries'] for r in ra),
                  'outcomes': {k: sum(r['outcomes'].get(k, 0) for r in ra) for k in set(sum([list(r['outcomes']) for r in ra], []))},
                  'samples': sum([r.get('samples') or [] for r in ra], [])[:4]},
